@@ -346,6 +346,7 @@ def manager_ops(unit, model):
                     ops.append(('set', st, i, 7))
                 elif st == 1:
                     ops.append(('set', st, i, 'x'))
+                    ops.append(('set', st, i, None))          # None is a value like any other, not 'not set'
                 elif 'a' not in model[st][i]:
                     ops.append(('add_map', st, i))
                 if st == 2:
